@@ -182,7 +182,10 @@ TEXT = {'C11': {'technique': 'Lean 4 proof by mutual structural induction over t
                   'neither panics nor runs out of fuel) and rejects only with a non-empty diagnostic list; CLI contract of the result mapping; panic-site list '
                   'covered. Searched: every in-process stage call of the lexer/parser/pipeline suites runs under catch_unwind; the real binary is run on all '
                   'byte strings up to length 2 (sample of length 3 in quick, all in thorough) over a 40-element alphabet including invalid UTF-8, on token '
-                  'soups and on truncated/corrupted corpus files, and must respect the exit/stdout/stderr contract.',
+                  'soups and on truncated/corrupted corpus files, and must respect the exit/stdout/stderr contract. Translator tie: the stage calls, error '
+                  'propagations, output macros and exits of main.rs (run / entry / main) are regenerated on every run and C14_cli_streams_tie decides over '
+                  'them that `run` writes to standard output only and only after tokenize, parse and type_check succeeded, `entry` writes nothing, and `main` '
+                  'writes to standard error only, each write followed at once by exit(1).',
          'note': 'Trusted: Lean kernel, standard axioms, extractor, harness.'},
  'C17': {'technique': '`decide` over the shape of the 36 packrat functions and fingerprints of the caching macros regenerated from parser.rs; memo-table model '
                       "whose per-nonterminal hit/miss counters are compared with the implementation's (hook H1); wall-clock scaling measured on the real code "
